@@ -45,6 +45,12 @@ def step (s : St) (ws : List String) : St × String :=
       let minted := n'.queue.drop n.queue.length
       ({ s with n := some n' }, s!"mint={showH minted} " ++ stateStr n' s.ledger)
     else (s, "bad-op")
+  | ["install", i, h] =>
+    let idx := i.toNat?.getD 0
+    let hh := h.toNat?.getD 0
+    if hh < n.lastExec || idx ≤ n.applied then (s, "bad-op") else
+    let n' := installSnap n idx hh s.ledger
+    ({ s with n := some n' }, s!"mint={showH (n'.queue.drop n.queue.length)} " ++ stateStr n' s.ledger)
   | ["exec"] =>
     match execute n with
     | (n', some h) => ({ n := some n', ledger := h }, s!"executed={h}")
